@@ -256,7 +256,7 @@ fn check_cli(l: &mut Local, name: &str, args: &[&str], rows: usize, cols: usize,
 
 
 pub fn run(run: &mut Run, extra: &[String]) {
-    run.rule = "EXHAUSTIVE over the 9 (rate, k) AR4JA codes and C2: size 3M x (k+3M) with M = k/2, k/4, k/8; every (M/4)x(M/4) sub-block circulant; protograph block-column degrees ([2,3,1,3,6] plus 4s; punctured block 6); invertible last 3M columns by own bit-packed elimination (hence full row rank; k=16384 in thorough only); Encoder::from_h + encode + syndrome for k=1024 (and 4096 in thorough); girth 6 for r1/2 k=1024 by own bounded BFS and girth(); C2: 1022 x 8176, 2x16 weight-2 511-circulants, row weight 32, column weight 4, rank exactly 1020, girth 6; SHA-256 pins for all ten, also through the real binary's ccsds / ccsds-c2 subcommands; all 100 ordered pairs of codes constructed back to back on one fresh thread; every configuration is non-trivial".into();
+    run.rule = "EXHAUSTIVE over the 9 (rate, k) AR4JA codes and C2: size 3M x (k+3M) with M = k/2, k/4, k/8; every (M/4)x(M/4) sub-block circulant; protograph block-column degrees ([2,3,1,3,6] plus 4s; punctured block 6); invertible last 3M columns by own bit-packed elimination (hence full row rank; k=16384 in thorough only); Encoder::from_h + encode + syndrome for k=1024 (and 4096 in thorough); girth 6 for r1/2 k=1024 by own bounded BFS and girth(); C2: 1022 x 8176, 2x16 weight-2 511-circulants, row weight 32, column weight 4, rank exactly 1020, girth 6; SHA-256 pins for all ten, also through the real binary's ccsds / ccsds-c2 subcommands; all 100 ordered pairs of codes constructed back to back on one fresh thread; h() called inside rayon pools of 3/6/12 threads and inside a parallel iterator; the binary also run with a size-limited output file (exit 0 must mean complete output); every configuration is non-trivial".into();
     run.exhaustive = Some(true);
     run.assumptions = vec![
         "M table and protograph degrees are the harness author's transcription of CCSDS 131.0-B; pins are regression digests (the Blue Book tables are not on this machine)".into(),
@@ -303,14 +303,34 @@ pub fn run(run: &mut Run, extra: &[String]) {
             Err(_) => l.inconclusive("history thread could not be joined".to_string()),
         }
     });
+    if !reference.is_empty() && !cfg!(miri) {
+        // the k = 16384 codes only in the thorough tier (each construction takes seconds)
+        run.sub("construction-contexts", 10, |l, idx, _rng| {
+            let i = idx as usize;
+            if i < 9 && sp[i].k == 16384 && tier == Tier::Quick {
+                return;
+            }
+            crate::props::c06::build_in_contexts(l, names[i], &reference[i], move || build(i));
+            let mut d = Dig::new();
+            d.s("ctx").u(idx);
+            l.nt(d.get());
+        });
+    }
     if std::path::Path::new(BIN).exists() {
         run.sub("cli-identifiers", (sp.len() + 1) as u64, |l, idx, _rng| {
             if (idx as usize) < sp.len() {
                 let s = &sp[idx as usize];
                 let ks = s.k.to_string();
                 check_cli(l, s.name, &["ccsds", "--rate", s.rate_s, "--block-size", &ks], 3 * s.m, s.k + 3 * s.m, &pins);
+                if idx % 3 == 0 && !reference.is_empty() {
+                    let full = reference[idx as usize].alist().len() + 1;
+                    crate::props::c06::check_cli_output_fault(l, s.name, &["ccsds", "--rate", s.rate_s, "--block-size", &ks], full, &format!("c07-{}", idx));
+                }
             } else {
                 check_cli(l, "C2", &["ccsds-c2"], 1022, 8176, &pins);
+                if !reference.is_empty() {
+                    crate::props::c06::check_cli_output_fault(l, "C2", &["ccsds-c2"], reference[9].alist().len() + 1, "c07-c2");
+                }
             }
         });
     } else {
